@@ -523,14 +523,6 @@ class EnumGen:
                     '    }',
                     '}']
             ops.append(('reparse', 'op_reparse'))
-        if 'VariantNames' in e.derives:
-            out += ['fn op_variants(a: &[&str]) -> String {',
-                    '    let v: &[&str] = <Inst as %s::VariantNames>::VARIANTS;' % self.sp,
-                    '    let mut o = vec![format!("n={}", v.len())];',
-                    '    for s in v { o.push(hex(s.as_bytes())); }',
-                    '    o.join(" ")',
-                    '}']
-            ops.append(('variants', 'op_variants'))
         return out, ops
 
     def feat_roundtrip(self):
@@ -561,7 +553,81 @@ class EnumGen:
         out.append('}')
         return out, [('roundtrip', 'op_roundtrip')]
 
-    FEATS = {'parse': 'feat_parse', 'names': 'feat_names', 'roundtrip': 'feat_roundtrip'}
+    def feat_iter(self):
+        e = self.e
+        sp = self.sp
+        out = ['fn item_repr(v: Option<Inst>) -> String {',
+               '    match v { None => "none".to_string(), Some(v) => format!("{}{}", ident_of(&v), payload(&v).replace(" ", ":")) }',
+               '}',
+               'fn _assert_send_sync<X: Send + Sync>() {}',
+               'fn _iter_is_send_sync() {',
+               '    _assert_send_sync::<<Inst as %s::IntoEnumIterator>::Iterator>();' % sp]
+        if e.generics in ('ty', 'where'):
+            out.append('    _assert_send_sync::<<%s<std::rc::Rc<u8>> as %s::IntoEnumIterator>::Iterator>();' % (e.name, sp))
+        out += ['}',
+                'fn op_iter(a: &[&str]) -> String {',
+                '    use %s::IntoEnumIterator;' % sp,
+                '    let mut slots = vec![<Inst as IntoEnumIterator>::iter()];',
+                '    let mut out: Vec<String> = Vec::new();',
+                '    for t in &a[2..] {',
+                "        let p: Vec<&str> = t.split(':').collect();",
+                '        let slot: usize = p[1].parse().unwrap();',
+                '        let n: usize = if p.len() > 2 { p[2].parse().unwrap() } else { 0 };',
+                '        match p[0] {',
+                '            "next" => out.push(item_repr(slots[slot].next())),',
+                '            "back" => out.push(item_repr(slots[slot].next_back())),',
+                '            "nth" => out.push(item_repr(slots[slot].nth(n))),',
+                '            "nthback" => out.push(item_repr(slots[slot].nth_back(n))),',
+                '            "len" => out.push(format!("len={}", ExactSizeIterator::len(&slots[slot]))),',
+                '            "hint" => { let (lo, hi) = slots[slot].size_hint(); out.push(if hi == Some(lo) { format!("len={}", lo) } else { format!("hint=({},{:?})", lo, hi) }); }',
+                '            "clone" => { let c = slots[slot].clone(); slots.push(c); out.push("cloned".to_string()); }',
+                '            "skip" => out.push(item_repr(slots[slot].clone().skip(n).next())),',
+                '            "stepby" => { let mut it = slots[slot].clone().step_by(n); let x1 = item_repr(it.next()); let x2 = item_repr(it.next()); let x3 = item_repr(it.next()); out.push(format!("{},{},{}", x1, x2, x3)); }',
+                '            _ => out.push("bad-tok".to_string()),',
+                '        }',
+                '    }',
+                '    out.join(" ")',
+                '}',
+                'fn op_collect(a: &[&str]) -> String {',
+                '    use %s::IntoEnumIterator;' % sp,
+                '    let l: Vec<Inst> = <Inst as IntoEnumIterator>::iter().take(100000).collect();',
+                '    let mut o = vec![format!("n={}", l.len())];',
+                '    for v in l { o.push(item_repr(Some(v))); }',
+                '    o.join(" ")',
+                '}',
+                'fn op_rev(a: &[&str]) -> String {',
+                '    use %s::IntoEnumIterator;' % sp,
+                '    let l: Vec<Inst> = <Inst as IntoEnumIterator>::iter().rev().take(100000).collect();',
+                '    let mut o = vec![format!("n={}", l.len())];',
+                '    for v in l { o.push(item_repr(Some(v))); }',
+                '    o.join(" ")',
+                '}']
+        return out, [('iter', 'op_iter'), ('collect', 'op_collect'), ('rev', 'op_rev')]
+
+    def feat_count(self):
+        out = ['fn op_count(a: &[&str]) -> String { format!("count={}", <Inst as %s::EnumCount>::COUNT) }' % self.sp]
+        return out, [('count', 'op_count')]
+
+    def feat_vnames(self):
+        out = ['fn op_variants(a: &[&str]) -> String {',
+               '    let v: &[&str] = <Inst as %s::VariantNames>::VARIANTS;' % self.sp,
+               '    let mut o = vec![format!("n={}", v.len())];',
+               '    for s in v { o.push(hex(s.as_bytes())); }',
+               '    o.join(" ")',
+               '}']
+        return out, [('variants', 'op_variants')]
+
+    def feat_varray(self):
+        out = ['fn op_varray(a: &[&str]) -> String {',
+               '    let v: &[Inst] = <Inst as %s::VariantArray>::VARIANTS;' % self.sp,
+               '    let mut o = vec![format!("n={}", v.len())];',
+               '    for x in v { o.push(ident_of(x).to_string()); }',
+               '    o.join(" ")',
+               '}']
+        return out, [('varray', 'op_varray')]
+
+    FEATS = {'parse': 'feat_parse', 'names': 'feat_names', 'roundtrip': 'feat_roundtrip', 'iter': 'feat_iter',
+             'count': 'feat_count', 'vnames': 'feat_vnames', 'varray': 'feat_varray'}
 
     def render(self):
         e = self.e
@@ -570,7 +636,7 @@ class EnumGen:
             pass
         out += self.enum_item(tuple(e.extra.get('base_derives', ('Debug', 'PartialEq', 'Clone'))))
         out += self.fn_ident_of()
-        if any(f in e.feats for f in ('parse', 'names', 'roundtrip', 'mk')):
+        if any(f in e.feats for f in ('parse', 'names', 'roundtrip', 'mk', 'iter', 'repr')):
             out += self.fn_mk()
             out += self.fn_payload()
         ops = []
